@@ -12,17 +12,17 @@ CHECKS = {
     "C02": ("A", "5 C02", "every attempt of every simulated run is compared with the sequential reference interpreter's canonical event list, under interleaving with other attempts and injected panics / World failures / undefined / ambiguous steps"),
     "C03": ("A", "5 C03", "framing invariants over the raw stream of every simulated run: lazy parser, parser errors, retries straddling bracket decisions, fail-fast closing half-run brackets"),
     "C04": ("A", "5 C04", "set of started scenarios vs. what the simulated parser handed over; bounded liveness: the executor reports deadlock (lost wake-up), livelock, a spin inside one poll (idle_tick hook) or poll-cap overrun"),
-    "C05": ("A", "5 C05", "per-scenario attempt chains checked for numbering, re-run-iff-failed-within-budget, non-overlap, fresh World and the retry delay in virtual time (events and user-callback stamps)"),
+    "C05": ("A", "5 C05", "per-scenario attempt chains checked for numbering, re-run-iff-failed-within-budget, non-overlap, fresh World and the retry delay in virtual time (events and user-callback stamps); other scenarios must keep running while a retry waits for its delay (quiescent-point work conservation); a panic escaping the runner is a lost retry"),
     "C06": ("A", "5 C06", "in-flight count on every prefix of the stream and over user-callback intervals; work conservation evaluated at quiescent points of the simulated executor after each completion"),
     "C07": ("A", "5 C07", "isolation window of every serial attempt checked against the event stream and the user-callback log, with serial scenarios becoming ready while others run (delayed retries, late features, simultaneous completions)"),
-    "C08": ("A", "5 C08", "position of the first final failure vs. later dispatches (bounded by the executor's next quiescent point), clean closing of brackets, parser-error cut-off, plus a fail-fast on/off differential on failure-free plans"),
+    "C08": ("A", "5 C08", "position of the first final failure vs. later dispatches: no attempt is handed to the executor (dispatch probe, hook H5, stamped with the virtual clock) once the failing attempt's Finished event exists; clean closing of brackets, parser-error cut-off, plus a fail-fast on/off differential on failure-free plans"),
     "C09": ("A", "5 C09", "instrumented World (id, mutation counter, callback trail) and hooks: trails matched as a multiset against the attempts of the event stream, after-hook argument vs. modelled outcome"),
     "C10": ("A", "5 C10", "every injected fault carries a unique token that must surface in exactly one Failed event of the right kind with its payload; counting panic hook during the run and hook-restoration probe after it"),
     "C11": ("C", "5 C11", "real Normalize fed with synthetic contract-abiding histories from abstract concurrent emitters (incl. orders runner::Basic never produces), slow inner writer; losslessness, immediate forwarding, maximal progress after every call, final shape"),
     "C12": ("C", "5 C12", "real Summarize (alone, inside/outside Repeat, inside FailOnSkipped, outside Normalize) fed with synthetic histories; all getters, steps/scenarios stats and the parsed summary text compared with an independent fold over the stream the inner writer received"),
     "C13": ("C", "5 C13", "real FailOnSkipped / Repeat / Tee / Or and nestings fed with contract-abiding and arbitrary (shuffled, truncated, duplicated) streams; recording inner writers (independently slow on each side)"),
-    "C14": ("R", "5 C14", "the four real reporters behind the real Normalize, fed with synthetic contract-abiding histories (names with quotes, markup, backslashes, non-ASCII; path-less features; retries; hook failures; parser errors; reporter options) and writing into a sink with short writes and EINTR; the output is parsed back (line / JSON / XML readers) and the multiset of facts compared with the facts of the stream, plus libtest started/result pairing, totals and verdict"),
-    "C20": ("T", "5 C20", "real tracing integration (global subscriber, Collector, span-close handshake) with 1-8 scenarios logging concurrently before and after await points, retries, slow and failing callbacks; one simulated run per process; each emitted token must arrive exactly once as a Log event of the emitting attempt between the emitter's Started and result events"),
+    "C14": ("R", "5 C14", "the four real reporters behind the real Normalize, fed with synthetic contract-abiding histories (names with quotes, markup, backslashes, non-ASCII; path-less features; retries; hook failures; parser errors; reporter options) and writing into a sink with short writes and EINTR; the output is parsed back (line / JSON / XML readers) and the multiset of facts compared with the facts of the stream, plus libtest started/result pairing, totals and verdict; the plain writer's terminal mode (Coloring::Always) is run through a terminal emulator and the final screen must equal the non-terminal output; in the tracing build the histories carry Log events (Basic / JUnit system-out / JSON embeddings checked); same-named features (nested paths), rules and scenarios, position-less features"),
+    "C20": ("T", "5 C20", "real tracing integration (global subscriber, Collector, span-close handshake) with 1-8 scenarios logging concurrently before and after await points, retries, slow and failing callbacks; one simulated run per process; each emitted token (also from a logging World constructor, a nested user span, structured fields, bursts) must arrive exactly once as a Log event of the emitting attempt between the emitter's Started and result events; half of the runs poll the pipeline inside a span of the caller, a third have a writer that logs through tracing itself"),
 }
 
 NOT_APPLICABLE = {
@@ -60,7 +60,7 @@ def main():
                 "text": text + ". Seeded sampling, not enumeration: a clean batch is evidence, not proof; every violation is shrunk and replays exactly from its file.",
                 "design_ref": "DESIGN.md section " + ref,
             },
-            "level_note": "trusted base: the simulator (sim/src/core.rs), the reference model and oracles (sim/src/model.rs, oracle_*.rs, worldc.rs), the add-only hooks H1-H4; not simulated: clap argv parsing, parser::Basic file walking, the real sleeper thread, terminal detection",
+            "level_note": "trusted base: the simulator (sim/src/core.rs), the reference model and oracles (sim/src/model.rs, oracle_*.rs, worldc.rs), the add-only hooks H1-H5; not simulated: clap argv parsing, parser::Basic file walking, the real sleeper thread, terminal detection",
             "technique": TECH,
         })
     m = {
@@ -77,7 +77,7 @@ def main():
             "name": "cucumber-sim",
             "path": "/verif/sim",
             "serves_properties": claimed,
-            "kind_free_text": "hand-written single-threaded discrete-event simulator (virtual clock, timer heap, seeded scheduler, fault plans) driving the real crate through its Parser / Runner / Writer / World seams plus four cfg-guarded hooks; python3 driver ./check fans out 16 worker processes, shrinks and replays",
+            "kind_free_text": "hand-written single-threaded discrete-event simulator (virtual clock, timer heap, seeded scheduler, fault plans) driving the real crate through its Parser / Runner / Writer / World seams plus five cfg-guarded hooks; python3 driver ./check fans out 16 worker processes, shrinks and replays",
         }],
         "checks": checks,
         "not_applicable": [{"property_id": k, "reason": v} for k, v in sorted(na.items())],
